@@ -534,7 +534,7 @@ class Exec:
                 for pn, ao in zip(pnames, actuals):
                     amap[pn] = argval(func, ao, argmap, loop_)
                 if call['invoke'] and pnames and amap.get(pnames[0]) is not None:
-                    impl = vc.cs.impl.get(call['iface'])
+                    impl = self.impl_of(call['iface'])
                     if impl and cf is not None:
                         amap[pnames[0]] = unbox(vc, amap[pnames[0]], impl)
                     elif amap[pnames[0]].sort == 'Any':
@@ -551,7 +551,7 @@ class Exec:
                 for p, ao in zip(cf.params, self.call_actuals(call)):
                     amap[p['n']] = argval(func, ao, argmap, loop_)
                 if call['invoke'] and cf.params and amap.get(cf.params[0]['n']) is not None:
-                    impl = vc.cs.impl.get(call['iface'])
+                    impl = self.impl_of(call['iface'])
                     amap[cf.params[0]['n']] = unbox(vc, amap[cf.params[0]['n']], impl) if impl else None
                 return scan_func(cf, [b['idx'] for b in cf.blocks], amap, depth + 1, {'body': set()})
             return 'all'
@@ -722,7 +722,7 @@ class Exec:
         if call['invoke']:
             its = call['iface']
             m = call['method']
-            impl = cs.impl.get(its)
+            impl = self.impl_of(its)
             if impl:
                 fn = self.prog.method_fn(impl, m)
                 if fn:
@@ -749,6 +749,13 @@ class Exec:
         if fc is not None:
             return ('value of ' + fn['t'], fc, 'contract')
         return (None, None, 'dynamic')
+
+    def impl_of(self, its):
+        tc = self.top.contract
+        loc = getattr(tc, 'devirt', None) if tc is not None else None
+        if loc and its in loc:
+            return loc[its]
+        return self.vc.cs.impl.get(its)
 
     def iface_has(self, its, k_its, m):
         a = self.prog.under(its)
@@ -1405,9 +1412,12 @@ class Exec:
             recv = actuals[0]
             self.oblige('nil', 'method call on nil interface', self.reach, not_(eq(recv.term, 'a.nil')), ['C03'], line)
             vc.assume(not_(eq(recv.term, 'a.nil')), self.reach)
-            impl = vc.cs.impl.get(call['iface'])
+            impl = self.impl_of(call['iface'])
             if impl and how in ('contract', 'inline', 'havoc') and cc is not None and not isinstance(cc.key, tuple) or (impl and how == 'inline'):
-                # devirtualised by assumption: receiver is the one implementation
+                # devirtualised: by assumption (assume-impl: the one implementation), or - for a function-level
+                # `devirt` clause - by proof that the receiver holds that type
+                if call['iface'] not in vc.cs.impl:
+                    self.oblige('devirt', 'receiver holds a %s' % short_fn(self.prog, impl), self.reach, is_type(vc, recv, impl), [], line)
                 vc.assume(is_type(vc, recv, impl), self.reach)
                 actuals[0] = unbox(vc, recv, impl)
         if how == 'contract':
@@ -1813,6 +1823,12 @@ def verify_function(vc, func, contract):
                 ug = vc.define('usecond', 'Bool', and_(cond, evu.eval(ucond).term))
             apply_lemma(vc, vc.cs.lemmas[lname], avs, ug, 'ret%d.use.%s' % (k, lname), contract.tags, line)
         for i, cl in enumerate(contract.ensures):
+            if 'ghostdef' in cl.tags:
+                # definition of a ghost (uninterpreted) view at construction time: assumed by callers, not provable
+                note = 'ghost definition (assumed): %s ensures %s' % (short_fn(prog, func.name), cl.text)
+                if note not in vc.cs.assumptions:
+                    vc.cs.assumptions.append(note)
+                continue
             ev = SpecEval(vc, pkg, renv, rst, st, env)
             ev.entry_alloc = a0
             ev.hdr = getattr(ex, 'headers', {})
